@@ -14,6 +14,7 @@ import Driver.Gen
 import FlacModel.Model.FileDecode
 import FlacModel.Model.Ctor
 import FlacModel.Model.FrameWf
+import FlacModel.Gen.Resid
 import Driver.Meta
 
 open Flac
@@ -139,6 +140,22 @@ def opEncframe (f : Fields) (impl : Fields) (implHead : String) (profile : Profi
         if !frameWfB none pr.frame then "FAIL encoder-frame-outside-roundtrip-domain"
         else if pr.frame.serialize != bytes then "FAIL encoder-frame-not-its-own-serialization"
         else "ok"
+    -- a block whose channels are constant: every subframe is CONSTANT, or FIXED/LPC over zero-width partitions only
+    -- (the hypothesis of `C19.constant_block_small`), or - tiny blocks - VERBATIM within the same bound
+    let chans := deinterleave ch pcm
+    let constBlock := chans.all (fun c => c.all (· == c.headD 0)) && pcm.length ≥ 2 * ch
+    let verdict := if verdict != "ok" || !constBlock then verdict else
+      match parseFrame decLayout true none bytes with
+      | .error _ => verdict
+      | .ok pr =>
+        let zeroRes (r : Residual) : Bool := r.parts.all (fun pt => match pt with | .zero _ => true | _ => false)
+          && decide (r.parts.length ≤ Gen.encMaxPartitions)
+        let okSub (s : Subframe) : Bool := match s.body with
+          | .constant _ => true
+          | .verbatim xs => decide (xs.length * pr.frame.hdr.bps ≤ 8 + 4 * 33 + 6 + Gen.encMaxPartitions * 10)
+          | .fixed _ _ r => zeroRes r
+          | .lpc _ _ _ _ _ r => zeroRes r
+        if pr.frame.subs.all okSub then "ok" else "FAIL constant-block-not-zero-partitioned"
     -- the crate-decoder model on the same bytes (ties Model/Decode to the spec on real output)
     let m := match decodeFrame profile none bytes with
       | .ok d => s!"ok dec={joinInts (interleave d.channels)}"
